@@ -257,7 +257,7 @@ pub fn drive<E: Engine>(engine: &E, args: &Args) -> i32 {
             }
         };
         if let Some(b) = v.get("build").and_then(|b| b.as_str()) {
-            if b != crate::rt::BUILD {
+            if b != "any" && b != crate::rt::BUILD {
                 println!("replay file is for build {b}; this is {}", crate::rt::BUILD);
                 return 0;
             }
